@@ -18,6 +18,7 @@ structure DriverState where
   evmtx : EvmTx.State × EvmTx.View := default
   sdb : SDB.S := {}
   msgtree : MsgTree.State := {}
+  ft : FunToken.State := {}
 
 def splitArgs (line : String) : List String :=
   (line.trimAscii.toString.splitOn " ").filter (· ≠ "")
@@ -53,6 +54,9 @@ def stepLine (st : DriverState) (line : String) : DriverState × String :=
   | "msgtree" :: args =>
     let (s', out) := MsgTree.step (MsgTree.guardOfFacts Generated.commissionDecoratorCases) st.msgtree args
     ({ st with msgtree := s' }, out)
+  | "ft" :: args =>
+    let (s', out) := FunToken.stepLine st.ft args
+    ({ st with ft := s' }, out)
   | "pc" :: args =>
     (st, Precompile.step (Precompile.cfgOfFacts Generated.precompileRequiredGasLenCheck Generated.precompileIsMutation
       Generated.precompileRunCases Generated.precompileRunDefersOOG Generated.precompileRawStringUses) args)
